@@ -5,11 +5,11 @@ from ..world import World, random_spec, world_from
 from . import resolve_common as R
 
 CLAIM = dict(
-    text="Coq theorems on the MultiTypeMap state machine (Model/Cache.v; every access reports whether a resolution -- MultiTypeMap.mro, the only route to type-order / applicability computations and to user hooks -- was computed): a key present in the dict is answered without resolution and leaves the state unchanged (C20_hit_no_resolution); once an access of a key succeeded, after ANY sequence of further accesses (any keys, successful or failing) the same key is still a hit returning the same handler (C20_resolved_once), because getitem never removes or changes an entry under a plain key. Tie to /repo: generated programs whose annotations include user class predicates (class_check) that count their invocations; after a warm-up touching each call once, random sequences of direct calls, recurse and call_next re-entries must leave the counters frozen for every combination that succeeded, in agreement with the state machine's resolved flag; a registration makes them move again.",
+    text="Coq theorems on the MultiTypeMap state machine (Model/Cache.v; every access reports whether a resolution -- MultiTypeMap.mro, the only route to type-order / applicability computations and to user hooks -- was computed): a key present in the dict is answered without resolution and leaves the state unchanged (C20_hit_no_resolution); once an access of a key succeeded, after ANY sequence of further accesses (any keys, successful or failing) the same key is still a hit returning the same handler (C20_resolved_once), because getitem never removes or changes an entry under a plain key. Tie to /repo: generated programs whose annotations include user class predicates (class_check) that count their invocations; after a warm-up touching each call once, random sequences of direct calls, recurse and call_next re-entries must leave the counters frozen for every combination that succeeded, in agreement with the state machine's resolved flag; a registration makes them move again. At the level of the function (Model/Graph.v, tied to /repo by C16's correspondence): a use of a built function and an add_mixins that adds nothing leave the whole graph unchanged (C20_use_of_built_function_rebuilds_nothing, C20_empty_add_mixins_rebuilds_nothing); on the implementation the operations that add no method -- add_mixins with nothing or with the function itself, the display helpers, reading the docstring, the signature or the repr of the function object -- are performed after warm-up on plain functions and on copies, and must not move the counters.",
     note="Trusted: as C04. The theorems cover plain keys and continuation keys (C20_next_no_resolution: once the plain key is stored, a call_next access of the same combination computes no resolution). That the generated entry point and the rewritten call sites index the table directly (a subscript, not a resolver call) is part of C03 / C09's translation validation.",
     technique="Coq proof (monotonicity of the dict under getitem) + hook-counter correspondence", design="6 C20")
 
-THEOREMS = ["C20_hit_no_resolution", "C20_resolved_once", "C20_next_no_resolution"]
+THEOREMS = ["C20_hit_no_resolution", "C20_resolved_once", "C20_next_no_resolution", "C20_use_of_built_function_rebuilds_nothing", "C20_empty_add_mixins_rebuilds_nothing"]
 ASSUMPTIONS = ["user predicates are only reachable through MultiTypeMap.mro / TypeMap.__missing__ (observed: counters never move on a model-predicted hit)"]
 
 
